@@ -51,3 +51,14 @@ def reflect(v, normal, origin):
     """Mirror image of point v in the plane through origin with (non-unit) normal."""
     n, v, o = np.asarray(normal), np.asarray(v), np.asarray(origin)
     return v - n * (2 * dot(v - o, n) / dot(n, n))
+
+
+def quat_frame(q):
+    """Three mutually orthogonal vectors of equal length |q|² (columns of the un-normalised
+    rotation matrix of the quaternion q = (q0,q1,q2,q3)); every right-handed orthogonal frame of
+    equal-length vectors arises this way (surjective, polynomial: no square roots)."""
+    a, b, c, d = q
+    e1 = np.array([a * a + b * b - c * c - d * d, 2 * (b * c + a * d), 2 * (b * d - a * c)], dtype=object)
+    e2 = np.array([2 * (b * c - a * d), a * a - b * b + c * c - d * d, 2 * (c * d + a * b)], dtype=object)
+    e3 = np.array([2 * (b * d + a * c), 2 * (c * d - a * b), a * a - b * b - c * c + d * d], dtype=object)
+    return e1, e2, e3
